@@ -154,6 +154,7 @@ def syncCoroutine (name : String) (c : Call) (extra : List TopCb) : M (R Nat) :=
     modA fun a => { a with slot := some name }
     let tid ← newTop ([.release] ++ extra)
     exec fuelDefault (.call c (.top tid))
+    armTop tid
     pure (.ok tid)
 
 /-- `@synchronized(name)` around a plain function -/
@@ -171,6 +172,7 @@ def syncPlain (name : String) (body : M (R α)) : M (R α) := do
 def plainCoroutine (c : Call) (extra : List TopCb) : M Nat := do
   let tid ← newTop extra
   exec fuelDefault (.call c (.top tid))
+  armTop tid
   pure tid
 
 /-! ### decimal seconds → ms (JSON numbers) -/
